@@ -634,6 +634,9 @@ func (w *world) exec(op Op, prev string) (tok, out, dump string, err error) {
 		w.faulty = true
 	}
 	w.sh.failOrderValid, w.sh.failChallenge = false, false
+	if os.Getenv("VERIF_C10_DEBUG") != "" {
+		fmt.Fprintf(os.Stderr, "debug: %s -> %d %s\n", tok, code, strings.TrimSpace(string(body)))
+	}
 	switch {
 	case crashed:
 		resp = "crash"
@@ -884,6 +887,7 @@ func main() {
 	n := flag.Int("n", 200, "number of generated histories")
 	out := flag.String("out", "", "output file (input<TAB>impl)")
 	replay := flag.String("replay", "", "file of model input lines (case=… field) to re-run instead of generating")
+	probe := flag.Int("probe-concurrent-finalize", 0, "not a check stage: run N rounds of two simultaneous finalize requests on one ready order and report how many orders ended with two certificates (C19 material)")
 	flag.Parse()
 	if err := setup(); err != nil {
 		fmt.Fprintln(os.Stderr, "setup:", err)
@@ -891,6 +895,10 @@ func main() {
 	}
 	defer ca.Close()
 	defer os.RemoveAll(shmDir)
+	if *probe > 0 {
+		probeConcurrentFinalize(*probe)
+		return
+	}
 	o, err := c.NewOut(*out)
 	if err != nil {
 		fmt.Fprintln(os.Stderr, err)
@@ -942,3 +950,42 @@ func main() {
 
 var _ = bytes.Equal
 var _ = sort.Strings
+
+// probeConcurrentFinalize is exploratory (outside C10's quantifier, which is over sequences):
+// DB.UpdateOrder re-reads the record and swaps against what it just read, so two finalize
+// requests that both loaded the order while ready both sign and both store a certificate.
+func probeConcurrentFinalize(rounds int) {
+	double := 0
+	for i := 0; i < rounds; i++ {
+		dir, _ := os.MkdirTemp(shmDir, "p")
+		w, err := newWorld(dir)
+		if err != nil {
+			fmt.Fprintln(os.Stderr, err)
+			return
+		}
+		prev := "/-//"
+		for _, op := range []Op{{K: "n", IDs: []string{"dns:a.example.com"}}, {K: "r", Obj: 0, Now: 1, How: "ok"}, {K: "o", Now: 2}} {
+			_, _, prev, _ = w.exec(op, prev)
+		}
+		_, der, _ := w.csr(0, "match")
+		payload, _ := json.Marshal(map[string]string{"csr": base64.RawURLEncoding.EncodeToString(der)})
+		done := make(chan int, 2)
+		for g := 0; g < 2; g++ {
+			go func() {
+				code, _, _ := call(acmeapi.FinalizeOrder, w.ctx(0, payload, &client{}, map[string]string{"ordID": w.orders[0]}))
+				done <- code
+			}()
+		}
+		c1, c2 := <-done, <-done
+		entries, _ := w.raw.List([]byte("acme_certs"))
+		if len(entries) > 1 {
+			double++
+			if double == 1 {
+				fmt.Printf("round %d: responses %d and %d, certificates stored for the order: %d\n", i, c1, c2, len(entries))
+			}
+		}
+		w.raw.Close()
+		os.RemoveAll(dir)
+	}
+	fmt.Printf("concurrent finalize: %d of %d rounds ended with two certificates for one order\n", double, rounds)
+}
